@@ -227,6 +227,15 @@ class HeaderTxSub(Sub):
     def run(self, case):
         drv = B.TxPartner(case)
         max_cycles = 500 + 60 * len(case["hdrs"]) + 60 * len(case.get("noise", []))
+        # The drain bound is a liveness budget of the harness: it must never undercut a slow but legal run.  A sparse
+        # PHY-ready pattern stretches every word, and every corrupted (re)transmission costs one more go-back-N round
+        # (LBAD, our LRTY, up to four headers again) plus the generated acknowledge / LRTY delays.
+        sp = list(case.get("sready") or [1])
+        slow = -(-len(sp) // sum(sp)) if 0 < sum(sp) else 1
+        ov = case.get("overtake") or {}
+        rounds = sum(1 for c in ov.get("corrupt", []) if c) + sum(1 for x in ov.get("lbads", []) if x and x[0] != "no")
+        delays = max(list(case.get("lrty_extra", [0])) + [0]) + max(list(ov.get("ack_delay", [0])) + [0])
+        max_cycles = max_cycles * slow + rounds * (30 * slow + delays)
         trace = self.h.run_driver(drv, max_cycles)
         log = drv.log[:len(trace)]
         n = len(trace)
